@@ -16,7 +16,7 @@ ASSUMPTIONS = ['stored actions are sent back verbatim as reprs',
                'formula cells whose post-bundle value was already stale w.r.t. a fresh engine are charged to C05; '
                'CircularRefError-kind differences are not judged']
 BUDGET = {'quick': dict(examples=800, shards=16, max_seconds=75),
-          'thorough': dict(examples=12000, shards=16, max_seconds=1800)}
+          'thorough': dict(examples=2400, shards=16, max_seconds=1800)}
 SHRINK_BUDGET = {'quick': 60, 'thorough': 400}
 ROOT_CAUSE_SUFFIXES = ('cells:lookup-KeyError-stale', 'summary-rows-renumbered', 'cells:lookup-key-column-type-changed')
 
